@@ -245,4 +245,263 @@ theorem vrhe_modes (hG : ValidGroup G) (mode : Mode) (S : State) (hS : StateOk G
     rw [bind_ok (hrotV [] [] _), bind_ok (liftE_ok hfinal _)]
     simp only [Bool.not_true, Bool.false_eq_true, if_false, pure_apply, verifierLines,
       List.nil_append, List.append_assoc]
+/-! ### the three kinds of challenge sources -/
+
+/-- non-interactive: the challenge is the hash of the input, reduced -/
+def srcNi (H : Hash) (q : ℤ) : ChalSrc := ⟨fun hin => H (shashInput (hin ())) % q, [], [], [], []⟩
+
+theorem srcNi_ok (H : Hash) (q : ℤ) (hq : 0 < q) : ChalOk (.ni H) q (srcNi H q) where
+  prover := by
+    intro hin peer coins sent tr
+    simp only [srcNi, List.map_nil, List.nil_append, List.append_nil]
+    simp only [chalP, mpzMod, ne_of_gt hq, if_false]
+    rfl
+  verifier := by
+    intro hin peer coins sent
+    simp only [srcNi, List.map_nil, List.nil_append, List.append_nil]
+    simp only [chalV, mpzMod, ne_of_gt hq, if_false]
+    rfl
+  range := fun hin => ⟨Int.emod_nonneg _ (ne_of_gt hq), Int.emod_lt_of_pos _ hq⟩
+
+/-- interactive: the verifier draws `c` and sends it -/
+def srcInter (c : ℤ) : ChalSrc := ⟨fun _ => c, [c], [], [], [c]⟩
+
+theorem srcInter_ok (q c : ℤ) (hc : 0 ≤ c ∧ c < q) : ChalOk .inter q (srcInter c) where
+  prover := by
+    intro hin peer coins sent tr
+    have hq : q ≠ 0 := by omega
+    simp only [srcInter, List.map_cons, List.map_nil, List.cons_append, List.nil_append,
+      List.append_nil]
+    simp only [chalP]
+    rw [bind_ok (recv_spec c peer coins sent tr)]
+    simp only [mpzMod, hq, if_false, Int.emod_eq_of_lt hc.1 hc.2]
+    rfl
+  verifier := by
+    intro hin peer coins sent
+    simp only [srcInter, List.map_nil, List.nil_append, List.cons_append]
+    simp only [chalV]
+    rw [bind_ok (draw_spec peer c coins sent false), bind_ok (send_apply _ _)]
+    rfl
+  range := fun _ => hc
+
+theorem flipTwoParty_more (C : Crs) (c hc : ℤ) (a b d : ℤ) (more : List (Option ℤ)) :
+    flipTwoParty C c hc (some a :: some b :: some d :: more) =
+      flipTwoParty C c hc [some a, some b, some d] := by
+  unfold flipTwoParty
+  rfl
+
+theorem flip_spec (C : Crs) (c0 h0 C0 C1 c1 h1 v : ℤ) (o : Outcome)
+    (ho : flipTwoParty C c0 h0 [some C1, some c1, some h1] = .ok o)
+    (hact : o.actions = [.send C0, .recv C1, .send c0, .send h0, .recv c1, .recv h1])
+    (hres : o.result = some v) (hthrew : o.threw = false)
+    (peer : List (Option ℤ)) (coins sent : List ℤ) (tr : Bool) :
+    flip C ⟨some C1 :: some c1 :: some h1 :: peer, c0 :: h0 :: coins, sent, tr⟩ =
+      .ok (some v) ⟨peer, coins, sent ++ [C0, c0, h0], tr⟩ := by
+  simp only [flip]
+  rw [bind_ok (draw_spec _ c0 _ sent tr), bind_ok (draw_spec _ h0 _ sent tr)]
+  simp only [flipStep, flipTwoParty_more, ho, hact, hres, hthrew]
+  simp [sendsOf]
+
+/-- public coin: both parties draw a share and a randomiser, exchange commitment and opening;
+    the coin `(c₀ + c₁) mod q'` of the flip's group is reduced modulo `q` -/
+def srcPc (q : ℤ) (C : Crs) (C0 C1 c0 h0 c1 h1 : ℤ) : ChalSrc :=
+  ⟨fun _ => (c0 + c1) % C.q % q, [C1, c1, h1], [c0, h0], [C0, c0, h0], [c1, h1]⟩
+
+theorem srcPc_ok (q : ℤ) (hq : 0 < q) (C : Crs) [Fact (Nat.Prime (grp C).p.natAbs)] (hC : ValidCrs C)
+    (c0 h0 c1 h1 : ℤ) (hc0 : 0 ≤ c0 ∧ c0 < C.q) (hh0 : 0 ≤ h0 ∧ h0 < C.q)
+    (hc1 : 0 ≤ c1 ∧ c1 < C.q) (hh1 : 0 ≤ h1 ∧ h1 < C.q) :
+    ∃ C0 C1, pedersen C c0 h0 true = .ok C0 ∧ pedersen C c1 h1 true = .ok C1 ∧
+      ChalOk (.pc C) q (srcPc q C C0 C1 c0 h0 c1 h1) := by
+  obtain ⟨C0, C1, o0, o1, hC0, hC1, f0, f1, r0, r1, t0, t1, a0, a1⟩ :=
+    flip2_agree hC c0 h0 c1 h1 hc0 hh0 hc1 hh1
+  refine ⟨C0, C1, hC0, hC1, ?_, ?_, ?_⟩
+  · intro hin peer coins sent tr
+    simp only [srcPc, List.map_cons, List.map_nil, List.cons_append, List.nil_append]
+    simp only [chalP]
+    rw [bind_ok (flip_spec C c0 h0 C0 C1 c1 h1 _ o0 f0 a0 r0 t0 peer coins sent tr)]
+    simp only [Option.getD_some, mpzMod, ne_of_gt hq, if_false]
+    rfl
+  · intro hin peer coins sent
+    simp only [srcPc, List.map_cons, List.map_nil, List.cons_append, List.nil_append]
+    simp only [chalV]
+    rw [bind_ok (flip_spec C c1 h1 C1 C0 c0 h0 _ o1 f1 a1 r1 t1 peer coins sent false)]
+    simp only [mpzMod, ne_of_gt hq, if_false]
+    rfl
+  · intro _
+    exact ⟨Int.emod_nonneg _ (ne_of_gt hq), Int.emod_lt_of_pos _ hq⟩
+
+
+/-! ### completeness of the rotation argument in the three modes -/
+
+variable {G : Group} [Fact (Nat.Prime G.p.natAbs)]
+
+theorem flatMap_nil_of {α β} (f : α → List β) : ∀ (l : List α), (∀ d ∈ l, f d = []) → l.flatMap f = []
+  | [], _ => rfl
+  | a :: l, h => by
+    rw [List.flatMap_cons, h a (by simp), flatMap_nil_of f l (fun d hd => h d (by simp [hd]))]
+    rfl
+
+/-- **C03, rotation argument, non-interactive mode**: for every stack size `n ≥ 2`, rotation `r`,
+    exponents `s`, true statement `Y_k = X_{k-r}·(g^{s_k}, h^{s_k})` over a valid group, every hash
+    function and all prover coins in `[0, q)` (draw order `u_0 t_0 u_1 t_1 …`, `o_0 p_0 m_0 …`, `u`,
+    `λ_j t_j (j ≠ r)`), the verifier accepts the proof the prover writes. -/
+theorem vrhe_complete_noninteractive (hG : ValidGroup G) (H : Hash) (S : State) (hS : StateOk G S)
+    (r : ℕ) (s : List ℤ) (X Y : List Card) (st : RotStmt G S r s X Y)
+    (ut opm : List ℤ) (u : ℤ) (lt rest : List ℤ)
+    (hut : InQ G.q ut) (hopm : InQ G.q opm) (hu : 0 ≤ u ∧ u < G.q) (hlt : InQ G.q lt)
+    (lut : ut.length = 2 * s.length) (lopm : opm.length = 3 * s.length)
+    (llt : lt.length = 2 * (s.length - 1)) :
+    ∃ proof,
+      run (done (vrheProve (.ni H) S r s X Y)) ⟨[], ut ++ (opm ++ (u :: (lt ++ rest))), [], false⟩ =
+        .ok ⟨proof, true, false⟩ ∧
+      run (vrheVerify (.ni H) S X Y) ⟨proof.map some, [], [], false⟩ = .ok ⟨[], true, false⟩ := by
+  have hq : 0 < S.G.q := by rw [hS.grp]; exact hG.q_pos
+  have hsrc := srcNi_ok H S.G.q hq
+  have hall : ∀ d ∈ List.replicate s.length (srcNi H S.G.q), ChalOk (.ni H) S.G.q d := by
+    intro d hd; rw [List.eq_of_mem_replicate hd]; exact hsrc
+  obtain ⟨sentP, hP, hV⟩ := vrhe_modes hG (.ni H) S hS r s X Y st
+    (List.replicate s.length (srcNi H S.G.q)) (by simp) hall (srcNi H S.G.q) hsrc
+    (List.replicate s.length (srcNi H S.G.q)) (by simp) hall (srcNi H S.G.q) hsrc
+    ut opm u lt rest hut hopm hu hlt lut lopm llt
+  have e : ∀ (f : ChalSrc → List ℤ), f (srcNi H S.G.q) = [] →
+      (List.replicate s.length (srcNi H S.G.q)).flatMap f = [] := by
+    intro f hf
+    exact flatMap_nil_of f _ (fun d hd => by rw [List.eq_of_mem_replicate hd]; exact hf)
+  have e1 : verifierLines (List.replicate s.length (srcNi H S.G.q)) (srcNi H S.G.q)
+      (List.replicate s.length (srcNi H S.G.q)) (srcNi H S.G.q) = [] := by
+    simp only [verifierLines, e ChalSrc.pPeer rfl]; simp [srcNi]
+  have e2 : proverCoins (List.replicate s.length (srcNi H S.G.q)) (srcNi H S.G.q)
+      (List.replicate s.length (srcNi H S.G.q)) (srcNi H S.G.q) ut opm u lt rest =
+      ut ++ (opm ++ (u :: (lt ++ rest))) := by
+    simp only [proverCoins, e ChalSrc.pCoins rfl]; simp [srcNi]
+  have e3 : verifierCoins (List.replicate s.length (srcNi H S.G.q)) (srcNi H S.G.q)
+      (List.replicate s.length (srcNi H S.G.q)) (srcNi H S.G.q) = [] := by
+    simp only [verifierCoins, e ChalSrc.vCoins rfl]; simp [srcNi]
+  rw [e1, e2] at hP
+  rw [e1, e3] at hV
+  exact ⟨sentP, hP, hV⟩
+
+theorem flatMap_map_single {α} (f : α → ChalSrc) (g : ChalSrc → List ℤ) (h : α → ℤ)
+    (hfg : ∀ a, g (f a) = [h a]) : ∀ l : List α, (l.map f).flatMap g = l.map h
+  | [] => rfl
+  | a :: l => by simp [hfg a, flatMap_map_single f g h hfg l]
+
+theorem flatMap_map_nil {α} (f : α → ChalSrc) (g : ChalSrc → List ℤ)
+    (hfg : ∀ a, g (f a) = []) : ∀ l : List α, (l.map f).flatMap g = []
+  | [] => rfl
+  | a :: l => by simp [hfg a, flatMap_map_nil f g hfg l]
+
+/-- **C03, rotation argument, interactive mode**: the verifier's draws `α_0 … α_{n-1}, λ,
+    β_0 … β_{n-1}, λ'` (any values in `[0, q)`) are what it writes and what the prover reads;
+    the verifier accepts what the prover writes. -/
+theorem vrhe_complete_interactive (hG : ValidGroup G) (S : State) (hS : StateOk G S)
+    (r : ℕ) (s : List ℤ) (X Y : List Card) (st : RotStmt G S r s X Y)
+    (alpha : List ℤ) (lambda : ℤ) (beta : List ℤ) (lambda2 : ℤ)
+    (hα : InQ G.q alpha) (hlam : 0 ≤ lambda ∧ lambda < G.q) (hbeta : InQ G.q beta)
+    (hlam2 : 0 ≤ lambda2 ∧ lambda2 < G.q) (lα : alpha.length = s.length) (lbeta : beta.length = s.length)
+    (ut opm : List ℤ) (u : ℤ) (lt rest : List ℤ)
+    (hut : InQ G.q ut) (hopm : InQ G.q opm) (hu : 0 ≤ u ∧ u < G.q) (hlt : InQ G.q lt)
+    (lut : ut.length = 2 * s.length) (lopm : opm.length = 3 * s.length)
+    (llt : lt.length = 2 * (s.length - 1)) :
+    ∃ sentP,
+      run (done (vrheProve .inter S r s X Y))
+        ⟨(alpha ++ [lambda] ++ beta ++ [lambda2]).map some, ut ++ (opm ++ (u :: (lt ++ rest))), [], false⟩ =
+        .ok ⟨sentP, true, false⟩ ∧
+      run (vrheVerify .inter S X Y) ⟨sentP.map some, alpha ++ [lambda] ++ beta ++ [lambda2], [], false⟩ =
+        .ok ⟨alpha ++ [lambda] ++ beta ++ [lambda2], true, false⟩ := by
+  have hall : ∀ (l : List ℤ), InQ G.q l → ∀ d ∈ l.map srcInter, ChalOk .inter S.G.q d := by
+    intro l hl d hd
+    obtain ⟨c, hc, rfl⟩ := List.mem_map.mp hd
+    rw [hS.grp]; exact srcInter_ok G.q c (hl c hc)
+  obtain ⟨sentP, hP, hV⟩ := vrhe_modes hG .inter S hS r s X Y st
+    (alpha.map srcInter) (by simp [lα]) (hall alpha hα) (srcInter lambda)
+    (by rw [hS.grp]; exact srcInter_ok G.q lambda hlam)
+    (beta.map srcInter) (by simp [lbeta]) (hall beta hbeta) (srcInter lambda2)
+    (by rw [hS.grp]; exact srcInter_ok G.q lambda2 hlam2)
+    ut opm u lt rest hut hopm hu hlt lut lopm llt
+  have p1 : ∀ l : List ℤ, (l.map srcInter).flatMap ChalSrc.pPeer = l := by
+    intro l; rw [flatMap_map_single srcInter ChalSrc.pPeer id (fun _ => rfl)]; simp
+  have p2 : ∀ l : List ℤ, (l.map srcInter).flatMap ChalSrc.vCoins = l := by
+    intro l; rw [flatMap_map_single srcInter ChalSrc.vCoins id (fun _ => rfl)]; simp
+  have p3 : ∀ l : List ℤ, (l.map srcInter).flatMap ChalSrc.pCoins = [] :=
+    fun l => flatMap_map_nil srcInter ChalSrc.pCoins (fun _ => rfl) l
+  have e1 : verifierLines (alpha.map srcInter) (srcInter lambda) (beta.map srcInter) (srcInter lambda2) =
+      alpha ++ [lambda] ++ beta ++ [lambda2] := by
+    simp [verifierLines, p1, srcInter]
+  have e2 : proverCoins (alpha.map srcInter) (srcInter lambda) (beta.map srcInter) (srcInter lambda2)
+      ut opm u lt rest = ut ++ (opm ++ (u :: (lt ++ rest))) := by
+    simp [proverCoins, p3, srcInter]
+  have e3 : verifierCoins (alpha.map srcInter) (srcInter lambda) (beta.map srcInter) (srcInter lambda2) =
+      alpha ++ [lambda] ++ beta ++ [lambda2] := by
+    simp [verifierCoins, p2, srcInter]
+  rw [e1, e2] at hP
+  rw [e1, e3] at hV
+  exact ⟨sentP, hP, hV⟩
+
+/-- share and randomiser of every flip, in draw order -/
+def flat2 (l : List (ℤ × ℤ)) : List ℤ := l.flatMap fun x => [x.1, x.2]
+
+/-- all shares and randomisers lie in `[0, q')` -/
+def InQ2 (q : ℤ) (l : List (ℤ × ℤ)) : Prop := ∀ x ∈ l, (0 ≤ x.1 ∧ x.1 < q) ∧ (0 ≤ x.2 ∧ x.2 < q)
+
+theorem srcPc_list (q : ℤ) (hq : 0 < q) (C : Crs) [Fact (Nat.Prime (grp C).p.natAbs)] (hC : ValidCrs C) :
+    ∀ (pcs vcs : List (ℤ × ℤ)), pcs.length = vcs.length → InQ2 C.q pcs → InQ2 C.q vcs →
+    ∃ A : List ChalSrc, A.length = pcs.length ∧ (∀ d ∈ A, ChalOk (.pc C) q d) ∧
+      A.flatMap ChalSrc.pCoins = flat2 pcs ∧ A.flatMap ChalSrc.vCoins = flat2 vcs
+  | [], [], _, _, _ => ⟨[], rfl, by simp, rfl, rfl⟩
+  | x :: pcs, y :: vcs, hl, hp, hv => by
+    obtain ⟨A, lA, hA, e1, e2⟩ := srcPc_list q hq C hC pcs vcs (by simpa using hl)
+      (fun z hz => hp z (by simp [hz])) (fun z hz => hv z (by simp [hz]))
+    obtain ⟨C0, C1, -, -, hd⟩ := srcPc_ok q hq C hC x.1 x.2 y.1 y.2 (hp x (by simp)).1 (hp x (by simp)).2
+      (hv y (by simp)).1 (hv y (by simp)).2
+    refine ⟨srcPc q C C0 C1 x.1 x.2 y.1 y.2 :: A, by simp [lA], ?_, ?_, ?_⟩
+    · intro d hd'
+      rcases List.mem_cons.mp hd' with rfl | h
+      · exact hd
+      · exact hA d h
+    · simp [flat2, srcPc, e1, List.flatMap_cons] at *
+    · simp [flat2, srcPc, e2, List.flatMap_cons] at *
+
+/-- **C03, rotation argument, public-coin mode**: every challenge is a two-party coin flip in the
+    group of the CRS `C`; for all shares and randomisers of both parties (in `[0, q')`) and all
+    other prover coins (in `[0, q)`), prover and verifier fed with each other's lines both finish,
+    and the verifier accepts. -/
+theorem vrhe_complete_publiccoin (hG : ValidGroup G) (S : State) (hS : StateOk G S)
+    (C : Crs) (hC : ValidCrs C)
+    (r : ℕ) (s : List ℤ) (X Y : List Card) (st : RotStmt G S r s X Y)
+    (pA vA : List (ℤ × ℤ)) (pL vL : ℤ × ℤ) (pB vB : List (ℤ × ℤ)) (pL2 vL2 : ℤ × ℤ)
+    (lpA : pA.length = s.length) (lvA : vA.length = s.length)
+    (lpB : pB.length = s.length) (lvB : vB.length = s.length)
+    (hpA : InQ2 C.q pA) (hvA : InQ2 C.q vA) (hpL : InQ2 C.q [pL]) (hvL : InQ2 C.q [vL])
+    (hpB : InQ2 C.q pB) (hvB : InQ2 C.q vB) (hpL2 : InQ2 C.q [pL2]) (hvL2 : InQ2 C.q [vL2])
+    (ut opm : List ℤ) (u : ℤ) (lt rest : List ℤ)
+    (hut : InQ G.q ut) (hopm : InQ G.q opm) (hu : 0 ≤ u ∧ u < G.q) (hlt : InQ G.q lt)
+    (lut : ut.length = 2 * s.length) (lopm : opm.length = 3 * s.length)
+    (llt : lt.length = 2 * (s.length - 1)) :
+    ∃ sentP sentV,
+      run (done (vrheProve (.pc C) S r s X Y))
+        ⟨sentV.map some, flat2 pA ++ (ut ++ (opm ++ (flat2 [pL] ++ (flat2 pB ++
+          (u :: (lt ++ (flat2 [pL2] ++ rest))))))), [], false⟩ = .ok ⟨sentP, true, false⟩ ∧
+      run (vrheVerify (.pc C) S X Y)
+        ⟨sentP.map some, flat2 vA ++ (flat2 [vL] ++ (flat2 vB ++ flat2 [vL2])), [], false⟩ =
+        .ok ⟨sentV, true, false⟩ := by
+  have : Fact (Nat.Prime (grp C).p.natAbs) := ⟨hC.valid.p_prime⟩
+  have hq : 0 < S.G.q := by rw [hS.grp]; exact hG.q_pos
+  obtain ⟨A, lA, hA, a1, a2⟩ := srcPc_list S.G.q hq C hC pA vA (by rw [lpA, lvA]) hpA hvA
+  obtain ⟨B, lB, hB, b1, b2⟩ := srcPc_list S.G.q hq C hC pB vB (by rw [lpB, lvB]) hpB hvB
+  obtain ⟨L, lL, hL, c1, c2⟩ := srcPc_list S.G.q hq C hC [pL] [vL] rfl hpL hvL
+  obtain ⟨L2, lL2, hL2, d1, d2⟩ := srcPc_list S.G.q hq C hC [pL2] [vL2] rfl hpL2 hvL2
+  match L, lL, hL, c1, c2, L2, lL2, hL2, d1, d2 with
+  | [dL], _, hL, c1, c2, [dL2], _, hL2, d1, d2 =>
+    obtain ⟨sentP, hP, hV⟩ := vrhe_modes hG (.pc C) S hS r s X Y st A (by rw [lA, lpA]) hA dL
+      (hL dL (by simp)) B (by rw [lB, lpB]) hB dL2 (hL2 dL2 (by simp))
+      ut opm u lt rest hut hopm hu hlt lut lopm llt
+    refine ⟨sentP, verifierLines A dL B dL2, ?_, ?_⟩
+    · have : proverCoins A dL B dL2 ut opm u lt rest = flat2 pA ++ (ut ++ (opm ++ (flat2 [pL] ++
+          (flat2 pB ++ (u :: (lt ++ (flat2 [pL2] ++ rest))))))) := by
+        simp only [proverCoins, a1, b1, ← c1, ← d1, List.flatMap_cons, List.flatMap_nil, List.append_nil]
+      rw [← this]; exact hP
+    · have : verifierCoins A dL B dL2 = flat2 vA ++ (flat2 [vL] ++ (flat2 vB ++ flat2 [vL2])) := by
+        simp only [verifierCoins, a2, b2, ← c2, ← d2, List.flatMap_cons, List.flatMap_nil, List.append_nil]
+      rw [← this]; exact hV
 end Tmcg.Args
